@@ -103,7 +103,11 @@ Definition handle (auth : option authenticator) (p : policy) (raw : option (list
   | Allow _ =>
     match dispatch is_connect authority with
     | RHealth => ok_answer false
-    | RUdp => ok_answer true
+    | RUdp =>
+      (* [o] = what the forwarder says about the client before a multiplexer is made (the direct forwarder: always
+         COk; the SOCKS5 forwarder: the outcome of a dialogue with its server, settled by the establishment timeout):
+         a refusal is reported like a failed connection attempt *)
+      match o with COk => ok_answer true | _ => fail_answer o end
     | RIcmp =>
       (* [o] = COk: the ICMP forwarder is set up and a multiplexer could be made. Otherwise the request is refused before any
          answer (ICMP_REFUSED_WHEN_NOT_SET_UP); as found, 200 had already been sent when the forwarder turned out to be absent *)
